@@ -1520,7 +1520,7 @@ Qed.
 
 Lemma wp_process_request_header on sh connp cp c tx F (Q : bool * ow_conn * ow_tx -> ow_state -> Prop) s :
   wf_conn cp c -> wf_tx tx -> ow_own (fp_conn c ++ fp_tx tx ++ F) s -> connp <> None -> (forall j, cnto j connp <= cnt j F) ->
-  (forall ok c' tx' s', wf_conn cp c' -> wf_tx tx' -> ocn_txs c' = ocn_txs c -> ocn_self c' = ocn_self c ->
+  (forall ok c' tx' s', wf_conn cp c' -> wf_tx tx' -> ocn_txs c' = ocn_txs c -> ocn_txl c' = ocn_txl c -> ocn_self c' = ocn_self c ->
                         otx_conn tx' = otx_conn tx -> otx_connp tx' = otx_connp tx ->
                         ow_own (fp_conn c' ++ fp_tx tx' ++ F) s' -> Q (ok, c', tx') s') ->
   ow_wp (ow_process_request_header on sh connp c tx) Q s.
@@ -1540,11 +1540,11 @@ Proof.
   apply wp_bind. apply wp_use. { apply own_live_in with (G := fp_conn c1 ++ nm :: vl :: hs :: fp_tx tx) (F := F); auto. eapply own_perm; [|exact O2]. intros j. cnt_norm. lia. }
   apply wp_bind. apply wp_use. { exists ta. split; auto. destruct O2 as [_ O2]. rewrite O2. specialize (Hta ta). cnt_norm. lia. }
   (* releasing the new header struct *)
-  assert (Hfree : forall c' tx' ok s', wf_conn cp c' -> wf_tx tx' -> ocn_txs c' = ocn_txs c -> ocn_self c' = ocn_self c ->
+  assert (Hfree : forall c' tx' ok s', wf_conn cp c' -> wf_tx tx' -> ocn_txs c' = ocn_txs c -> ocn_txl c' = ocn_txl c -> ocn_self c' = ocn_self c ->
             otx_conn tx' = otx_conn tx -> otx_connp tx' = otx_connp tx ->
             ow_own (fp_conn c' ++ nm :: vl :: hs :: fp_tx tx' ++ F) s' ->
             ow_wp ((ow_free (Some nm) ;;; ow_free (Some vl) ;;; ow_free (Some hs)) ;;; ow_ret (ok, c', tx')) Q s').
-  { intros c' tx' ok s' Wc' Wt' A B C D [Ok' L']. wp_go. apply HQ; auto. split; auto. intros j. cnt_at j. }
+  { intros c' tx' ok s' Wc' Wt' A A2 B C D [Ok' L']. wp_go. apply HQ; auto. split; auto. intros j. cnt_at j. }
   destruct (match ohs_existing sh with
             | Some i => match nth_error (otx_req_hvals tx) i with Some he => Some (i, he) | None => None end
             | None => None end) as [[i he]|] eqn:Eex.
@@ -1559,17 +1559,17 @@ Proof.
     { exists hes. split; auto. destruct O2 as [_ O2]. rewrite O2. specialize (Hhe' hes). unfold fp_hdr in Hhe'. rewrite Ehes in Hhe'. cnt_norm. lia. }
     apply wp_bind.
     assert (Hlog : forall (b : bool) c0 s0 (Q' : ow_conn -> ow_state -> Prop),
-       wf_conn cp c0 -> ocn_txs c0 = ocn_txs c -> ocn_self c0 = ocn_self c ->
+       wf_conn cp c0 -> ocn_txs c0 = ocn_txs c -> ocn_txl c0 = ocn_txl c -> ocn_self c0 = ocn_self c ->
        ow_own (fp_conn c0 ++ nm :: vl :: hs :: fp_tx tx ++ F) s0 ->
-       (forall c' s', wf_conn cp c' -> ocn_txs c' = ocn_txs c -> ocn_self c' = ocn_self c ->
+       (forall c' s', wf_conn cp c' -> ocn_txs c' = ocn_txs c -> ocn_txl c' = ocn_txl c -> ocn_self c' = ocn_self c ->
                       ow_own (fp_conn c' ++ nm :: vl :: hs :: fp_tx tx ++ F) s' -> Q' c' s') ->
        ow_wp (if b then ow_log_msg on connp c0 else ow_ret c0) Q' s0).
-    { intros b c0 s0 Q' Wc0 A0 B0 O0 HQ'. destruct b.
+    { intros b c0 s0 Q' Wc0 A0 A20 B0 O0 HQ'. destruct b.
       - apply wp_log_msg with (cp := cp) (F := nm :: vl :: hs :: fp_tx tx ++ F); auto.
         + intros j. specialize (Hle j). cnt_norm. lia.
         + intros c' s' Wc' A B C O'. apply HQ'; auto; congruence.
       - apply wp_ret. apply HQ'; auto. }
-    apply Hlog; [exact W1 | exact E1 | exact E3 | exact O2 |]. intros c2 s3 W2 E4 E5 O3.
+    apply Hlog; [exact W1 | exact E1 | exact E2 | exact E3 | exact O2 |]. intros c2 s3 W2 E4 E42 E5 O3.
     destruct (ohs_ex_repeated sh && negb (otx_rep tx <? c_ow_MAX_HEADERS_REPETITIONS)).
     { apply Hfree; auto. }
     destruct (ohs_is_cl sh).
@@ -1583,7 +1583,7 @@ Proof.
           rewrite Forall_forall in T16. apply (T16 he); [eapply nth_error_In; eauto | auto]. }
       apply wp_bind. apply wp_use. { destruct (Hv s3 eq_refl) as [H|H]; [exact H | discriminate]. }
       apply wp_bind. apply wp_use. { exists vl. split; auto. rewrite L3. cnt_norm. lia. }
-      apply wp_bind. apply Hlog; [exact W2 | exact E4 | exact E5 | split; auto |]. intros c3 s4 W3 E6 E7 O4.
+      apply wp_bind. apply Hlog; [exact W2 | exact E4 | exact E42 | exact E5 | split; auto |]. intros c3 s4 W3 E6 E62 E7 O4.
       apply Hfree; auto.
     + destruct O3 as [Ok3 L3].
       pose proof Wt as [_ [_ [_ [_ [_ [_ [_ [_ [_ [_ [_ [_ [_ [_ [_ T16]]]]]]]]]]]]]]].
@@ -1824,7 +1824,6 @@ Proof.
     set (R := olist [ocp_in_buf p; ocp_out_buf p; ocp_in_hdr p; ocp_out_hdr p] ++ fp_fileo (ocp_put_file p)).
     apply wp_bind. apply wp_log_msg with (cp := Some a) (F := a :: R ++ F); auto.
     + eapply own_perm; [|exact O]. intros j. unfold fp_connp, R. rewrite Ea, Ec. cbn [fp_conno]. cnt_norm. lia.
-    + discriminate.
     + intros j. cnt_norm. lia.
     + intros c' s' Wc' A B C O'. apply wp_ret. apply HQ.
       * split; [cbn; rewrite Ea; discriminate|]. split; cbn; auto. rewrite Ea. auto.
@@ -1838,4 +1837,404 @@ Proof.
     + wp_go.
       * apply HQ; auto. split; auto. intros j; cnt_at j.
       * apply HQ; auto. split; auto. intros j. pose proof (fp_connp_set_in_buf p (Some (oos_next s)) j) as FB. rewrite Eib in FB. cnt_at j.
+Qed.
+
+(* ================================================================== the theorems of C18
+   ow_safe_f: for every failure schedule (it is part of the state s, universally quantified) and every
+   well-formed input, f never faults.  ow_then_destroy_clean_f: f followed by the matching destroy function
+   never faults and leaves exactly the cells F that do not belong to the object (F = [] : the heap is empty). *)
+Ltac fin := first [ intros; eapply wp_nofault | idtac ].
+
+Lemma own_F_live o F G s : ow_own (G ++ F) s -> o <> None -> (forall j, cnto j o <= cnt j F) -> live_in o s.
+Proof. apply own_live_in. Qed.
+
+(* ---- connection *)
+Theorem ow_safe_conn_create F s : ow_own F s -> ow_nofault ow_conn_create s.
+Proof. intros O. eapply wp_nofault. apply wp_conn_create with (F := F) (Q := fun _ _ => True); auto. Qed.
+
+Theorem ow_then_destroy_clean_conn_create F s :
+  ow_own F s -> ow_clean_to F (c <- ow_conn_create ;; ow_conn_destroy c) s.
+Proof.
+  intros O. apply wp_bind. apply wp_conn_create with (F := F); auto.
+  intros c s1 W Et _ _ _ _ _ O1. apply wp_conn_destroy with (connp := None) (F := F); auto.
+  intros [t Hin]. rewrite Et in Hin. contradiction.
+Qed.
+
+Theorem ow_safe_conn_open c hc hs F s :
+  ocn_self c <> None -> ocn_client c = None -> ocn_server c = None -> ow_own (fp_conn c ++ F) s ->
+  ow_nofault (ow_conn_open c hc hs) s.
+Proof. intros. eapply wp_nofault. apply wp_conn_open with (F := F) (Q := fun _ _ => True); auto. Qed.
+
+Theorem ow_then_destroy_clean_conn_open cp c hc hs F s :
+  wf_conn cp c -> connp_in cp c F -> ocn_client c = None -> ocn_server c = None -> ow_own (fp_conn c ++ F) s ->
+  ow_clean_to F (r <- ow_conn_open c hc hs ;; ow_conn_destroy (Some (snd r))) s.
+Proof.
+  intros W Hin E1 E2 O. apply wp_bind. apply wp_conn_open with (F := F); auto. { apply W. }
+  intros ok c' s1 W' Et O1. cbn [snd]. apply wp_conn_destroy with (connp := cp) (F := F); auto.
+  unfold connp_in in *. rewrite Et. auto.
+Qed.
+
+(* ---- lists *)
+Theorem ow_safe_list_push l F s :
+  wf_lsto (Some l) -> ow_own (fp_lsto (Some l) ++ F) s -> ow_nofault (ow_list_push l) s.
+Proof.
+  intros [W1 W2] [Hok Hown]. eapply wp_nofault. cbn [fp_lsto] in Hown.
+  destruct (ool_self l) as [a|] eqn:Ea; [|congruence]. destruct (ool_blk l) as [b|] eqn:Eb; [|congruence].
+  apply wp_list_push with (Q := fun _ _ => True); auto.
+  - rewrite Ea. live_solve.
+  - rewrite Eb. live_solve.
+Qed.
+
+Theorem ow_then_destroy_clean_list_push l F s :
+  wf_lsto (Some l) -> ow_own (fp_lsto (Some l) ++ F) s ->
+  ow_clean_to F (r <- ow_list_push l ;; ow_list_destroy (Some (snd r))) s.
+Proof.
+  intros [W1 W2] [Hok Hown]. cbn [fp_lsto] in Hown.
+  destruct (ool_self l) as [a|] eqn:Ea; [|congruence]. destruct (ool_blk l) as [b|] eqn:Eb; [|congruence].
+  apply wp_bind. apply wp_list_push; auto.
+  - rewrite Ea. live_solve.
+  - rewrite Eb. live_solve.
+  - intros s1 Ok1 L1 _. cbn [snd]. apply wp_lsto_destroy with (F := F); auto.
+    + cbn. rewrite Ea, Eb. split; discriminate.
+    + split; auto. intros j. cbn [fp_lsto]. rewrite Ea, Eb. cnt_at j.
+  - intros l1 s1 Ok1 Hs1 [b1 [Eb1 Hb1]] L1 _ _. cbn [snd]. apply wp_lsto_destroy with (F := F); auto.
+    + cbn. rewrite Hs1, Ea, Eb1. split; discriminate.
+    + split; auto. intros j. cbn [fp_lsto]. rewrite Hs1, Ea, Eb1. rewrite Eb in L1. cnt_at j.
+Qed.
+
+Theorem ow_then_destroy_clean_list_create n F s :
+  ow_own F s -> ow_clean_to F (l <- ow_list_create n ;; ow_list_destroy l) s.
+Proof.
+  intros [Hok Hown]. apply wp_bind. apply wp_list_create; auto.
+  - intros s1 Ok1 L1. apply wp_ret. split; auto. intros j. rewrite L1; auto.
+  - intros a b s1 Ok1 L1 _. apply wp_lsto_destroy with (F := F).
+    + cbn. split; discriminate.
+    + split; auto. intros j. cbn. cnt_at j.
+    + auto.
+Qed.
+
+(* ---- tables *)
+Theorem ow_then_destroy_clean_table_create n F s :
+  ow_own F s -> ow_clean_to F (t <- ow_table_create n ;; ow_table_destroy t) s.
+Proof.
+  intros O. apply wp_bind. apply wp_table_create with (F := F); auto.
+  intros t s1 W P _ O1. apply wp_table_destroy with (F := F); auto.
+Qed.
+
+Theorem ow_safe_table_add t key F s :
+  wf_tbl t -> tbl_ptrs t -> ow_own (fp_tbl t ++ F) s -> (key = None \/ live_in key s) -> ow_nofault (ow_table_add t key) s.
+Proof. intros. eapply wp_nofault. apply wp_table_add with (F := F) (Q := fun _ _ => True); auto. Qed.
+
+Theorem ow_then_destroy_clean_table_add t key F s :
+  wf_tbl t -> tbl_ptrs t -> ow_own (fp_tbl t ++ F) s -> (key = None \/ live_in key s) ->
+  ow_clean_to F (r <- ow_table_add t key ;; ow_table_destroy (Some (snd r))) s.
+Proof.
+  intros W P O K. apply wp_bind. apply wp_table_add with (F := F); auto.
+  intros ok t' s1 W' P' O1 _ _ _. cbn [snd]. apply wp_table_destroy with (F := F); auto.
+Qed.
+
+(* adopted keys: on failure the key stays with the caller (k remains in the heap), on success it goes with the table *)
+Theorem ow_then_destroy_clean_table_addn t k F s :
+  wf_tbl t -> tbl_ptrs t -> ow_own (fp_tbl t ++ k :: F) s ->
+  ow_clean_to F (r <- ow_table_addn t (Some k) ;;
+                 (if fst r then ow_ret tt else ow_free (Some k)) ;;; ow_table_destroy (Some (snd r))) s.
+Proof.
+  intros W P O. apply wp_bind. apply wp_table_addn with (F := F); auto.
+  - intros t' s1 W' P' O1 _. cbn [fst snd]. apply wp_bind. apply wp_ret. apply wp_table_destroy with (F := F); auto.
+  - intros t' s1 W' P' [Ok1 L1] _. cbn [fst snd]. apply wp_bind. apply wp_free; auto.
+    + intros i E. injection E as <-. rewrite L1. cnt_norm. lia.
+    + intros s2 Ok2 L2 _. apply wp_table_destroy with (F := F); auto. split; auto.
+      intros j. specialize (L1 j). specialize (L2 j). cnt_norm. lia.
+Qed.
+
+Theorem ow_then_destroy_clean_table_addk t k F s :
+  wf_tbl t -> tbl_ptrs t -> ow_own (fp_tbl t ++ F) s ->
+  ow_clean_to F (r <- ow_table_addk t (Some k) ;; ow_table_destroy (Some (snd r))) s.
+Proof.
+  intros W P O. apply wp_bind. apply wp_table_addk with (F := F); auto.
+  intros ok t' s1 W' P' O1 _. cbn [snd]. apply wp_table_destroy with (F := F); auto.
+Qed.
+
+Theorem ow_then_destroy_clean_table_clear t F s :
+  wf_tbl t -> tbl_ptrs t -> ow_own (fp_tbl t ++ F) s ->
+  ow_clean_to F (t1 <- ow_table_clear t ;; ow_table_destroy (Some t1)) s.
+Proof.
+  intros W P O. apply wp_bind. apply wp_table_clear with (F := F); auto.
+  intros t' s1 W' P' _ _ O1. apply wp_table_destroy with (F := F); auto.
+Qed.
+
+(* ---- bstr *)
+Theorem ow_then_destroy_clean_bstr_dup b F s :
+  ow_own (b :: F) s -> ow_clean_to F (d <- ow_bstr_dup (Some b) ;; ow_free d ;;; ow_free (Some b)) s.
+Proof.
+  intros [Hok Hown]. apply wp_bind. apply wp_bstr_dup; auto. { exists b. split; auto. rewrite Hown. cnt_norm. lia. }
+  intros r s1 Ok1 L1. wp_go. split; auto. intros j. cnt_at j.
+Qed.
+
+Theorem ow_then_destroy_clean_bstr_expand b w sh F s :
+  ow_own (b :: F) s ->
+  ow_clean_to F (n <- ow_bstr_expand (Some b) w sh ;; if ow_isnull n then ow_free (Some b) else ow_free n) s.
+Proof.
+  intros [Hok Hown]. apply wp_bind. apply wp_bstr_expand; auto. { exists b. split; auto. rewrite Hown. cnt_norm. lia. }
+  - intros s1 Ok1 L1. cbn [ow_isnull]. wp_go. split; auto. intros j. cnt_at j.
+  - intros n s1 Ok1 L1 Hn. cbn [ow_isnull]. wp_go. split; auto. intros j. cnt_at j.
+Qed.
+
+Theorem ow_then_destroy_clean_bstr_add_mem b w fits F s :
+  ow_own (b :: F) s ->
+  ow_clean_to F (n <- ow_bstr_add_mem (Some b) w fits ;; if ow_isnull n then ow_free (Some b) else ow_free n) s.
+Proof.
+  intros [Hok Hown]. unfold ow_bstr_add_mem.
+  assert (Hb : 1 <= cnt b (oos_live s)). { rewrite Hown. cnt_norm. lia. }
+  apply wp_bind. apply wp_bind. apply wp_use. { exists b. split; auto. }
+  destruct fits.
+  - apply wp_ret. cbn [ow_isnull]. wp_go. split; auto. intros j. cnt_at j.
+  - apply wp_bind. apply wp_bstr_expand; auto. { exists b. split; auto. }
+    + intros s1 Ok1 L1. apply wp_ret. cbn [ow_isnull]. wp_go. split; auto. intros j. cnt_at j.
+    + intros n s1 Ok1 L1 Hn. apply wp_bind. apply wp_use. { exists n. split; auto. }
+      apply wp_ret. cbn [ow_isnull]. wp_go. split; auto. intros j. cnt_at j.
+Qed.
+
+(* ---- builder *)
+Theorem ow_then_destroy_clean_builder_create F s :
+  ow_own F s -> ow_clean_to F (b <- ow_builder_create ;; ow_builder_destroy b) s.
+Proof.
+  intros O. apply wp_bind. apply wp_builder_create with (F := F); auto.
+  intros bb s1 W _ _ O1. apply wp_builder_destroy with (F := F); auto.
+Qed.
+
+Theorem ow_then_destroy_clean_builder_append bb F s :
+  wf_bb bb -> ow_own (fp_bb bb ++ F) s ->
+  ow_clean_to F (r <- ow_builder_append_mem bb ;; ow_builder_destroy (Some (snd r))) s.
+Proof.
+  intros W O. apply wp_bind. apply wp_builder_append with (F := F); auto.
+  intros ok bb' s1 W' O1. cbn [snd]. apply wp_builder_destroy with (F := F); auto.
+Qed.
+
+Theorem ow_then_destroy_clean_builder_to_str bb F s :
+  wf_bb bb -> ow_own (fp_bb bb ++ F) s ->
+  ow_clean_to F (r <- ow_builder_to_str bb ;; ow_free r ;;; ow_builder_destroy (Some bb)) s.
+Proof.
+  intros W O. apply wp_bind. apply wp_builder_to_str with (F := F); auto.
+  intros r s1 [Ok1 L1]. apply wp_bind. apply wp_free; auto.
+  - intros i E. rewrite L1, E. cnt_norm. lia.
+  - intros s2 Ok2 L2 _. apply wp_builder_destroy with (F := F); auto. split; auto.
+    intros j. specialize (L1 j). specialize (L2 j). cnt_norm. lia.
+Qed.
+
+Theorem ow_then_destroy_clean_builder_clear bb F s :
+  wf_bb bb -> ow_own (fp_bb bb ++ F) s ->
+  ow_clean_to F (b1 <- ow_builder_clear bb ;; ow_builder_destroy (Some b1)) s.
+Proof.
+  intros W O. apply wp_bind. apply wp_builder_clear with (F := F); auto.
+  intros bb' s1 W' O1. apply wp_builder_destroy with (F := F); auto.
+Qed.
+
+(* ---- hooks *)
+Theorem ow_then_destroy_clean_hook_register h F s :
+  wf_hooko h -> ow_own (fp_hooko h ++ F) s ->
+  ow_clean_to F (r <- ow_hook_register h ;; ow_hook_destroy (snd r)) s.
+Proof.
+  intros W O. apply wp_bind. apply wp_hook_register with (F := F); auto.
+  intros ok h' s1 W' O1 _. cbn [snd]. apply wp_hook_destroyo with (F := F); auto.
+Qed.
+
+Theorem ow_then_destroy_clean_hook_copy h F s :
+  wf_hooko h -> ow_own (fp_hooko h ++ F) s ->
+  ow_clean_to F (c <- ow_hook_copy h ;; ow_hook_destroy c ;;; ow_hook_destroy h) s.
+Proof.
+  intros W O. apply wp_bind. apply wp_hook_copy with (F := F); auto.
+  intros r s1 Wr O1. apply wp_bind. apply wp_hook_destroyo with (F := fp_hooko h ++ F); auto.
+  intros s2 O2. apply wp_hook_destroyo with (F := F); auto.
+Qed.
+
+Theorem ow_then_destroy_clean_hook_create F s :
+  ow_own F s -> ow_clean_to F (h <- ow_hook_create ;; ow_hook_destroy h) s.
+Proof.
+  intros O. apply wp_bind. apply wp_hook_create with (F := F); auto.
+  intros h s1 W _ _ _ O1. apply wp_hook_destroy with (F := F); auto.
+Qed.
+
+(* ---- connection parser, transactions *)
+Theorem ow_then_destroy_clean_connp_create F s :
+  ow_own F s -> ow_clean_to F (p <- ow_connp_create ;; ow_connp_destroy_all p) s.
+Proof.
+  intros O. apply wp_bind. apply wp_connp_create with (F := F); auto.
+  intros p s1 W O1. apply wp_connp_destroy_all with (F := F); auto.
+Qed.
+
+(* the world of the transaction-level functions: a connection parser whose connection is c *)
+Definition ow_world (p : ow_connp) (c : ow_conn) : Prop := wf_connp p /\ ocp_conn p = Some c.
+
+Lemma world_split p c :
+  ow_world p c ->
+  exists a R, ocp_self p = Some a /\ wf_conn (Some a) c /\ (forall j, ind a j <= cnt j R) /\
+    (forall j, cnt j (fp_connp p) = cnt j (fp_conn c) + cnt j R) /\
+    (forall c' j, cnt j (fp_connp (ocp_set_conn p (Some c'))) = cnt j (fp_conn c') + cnt j R) /\
+    (forall c', wf_conn (Some a) c' -> wf_connp (ocp_set_conn p (Some c'))).
+Proof.
+  intros [[W1 [W2 W3]] Ec]. destruct (ocp_self p) as [a|] eqn:Ea; [|congruence].
+  exists a, (a :: olist [ocp_in_buf p; ocp_out_buf p; ocp_in_hdr p; ocp_out_hdr p] ++ fp_fileo (ocp_put_file p)).
+  rewrite Ec in W2.
+  split; [reflexivity|]. split; [exact W2|].
+  split. { intros j. cnt_norm. lia. }
+  split. { intros j. unfold fp_connp. rewrite ?Ea, ?Ec. cbn [fp_conno]. cnt_norm. lia. }
+  split.
+  - intros c' j. unfold fp_connp, ocp_set_conn.
+    cbn [ocp_self ocp_conn ocp_in_buf ocp_out_buf ocp_in_hdr ocp_out_hdr ocp_put_file fp_conno]. rewrite ?Ea. cnt_norm. lia.
+  - intros c' Wc'. split; [cbn; rewrite ?Ea; discriminate|]. split; cbn; [rewrite ?Ea; auto | exact W3].
+Qed.
+
+Theorem ow_then_destroy_clean_tx_create p c F s :
+  ow_world p c -> ow_own (fp_connp p ++ F) s ->
+  ow_clean_to F (r <- ow_tx_create (ocp_self p) c ;; ow_connp_destroy_all (Some (ocp_set_conn p (Some (snd r))))) s.
+Proof.
+  intros Wd O. destruct (world_split _ _ Wd) as [a [R [Ea [Wc [Ha [E1 [E2 Hwf]]]]]]].
+  apply wp_bind. rewrite Ea. apply wp_tx_create with (F := R ++ F); auto.
+  - eapply own_perm; [|exact O]. intros j. specialize (E1 j). cnt_norm. lia.
+  - discriminate.
+  - intros j. specialize (Ha j). cnt_norm. lia.
+  - intros ok c' s1 Wc' _ O2. cbn [snd]. apply wp_connp_destroy_all with (F := F); auto.
+    eapply own_perm; [|exact O2]. intros j. specialize (E2 c' j). cnt_norm. lia.
+Qed.
+
+Theorem ow_safe_tx_create p c F s :
+  ow_world p c -> ow_own (fp_connp p ++ F) s -> ow_nofault (ow_tx_create (ocp_self p) c) s.
+Proof.
+  intros Wd O. destruct (world_split _ _ Wd) as [a [R [Ea [Wc [Ha [E1 [E2 Hwf]]]]]]].
+  eapply wp_nofault. rewrite Ea. apply wp_tx_create with (F := R ++ F) (Q := fun _ _ => True); auto.
+  - eapply own_perm; [|exact O]. intros j. specialize (E1 j). cnt_norm. lia.
+  - discriminate.
+  - intros j. specialize (Ha j). cnt_norm. lia.
+Qed.
+
+(* htp_tx_destroy_incomplete on any well-formed (also partially built) transaction of the connection *)
+Theorem ow_safe_tx_destroy_incomplete tx F s :
+  wf_tx tx -> ow_own (fp_tx tx ++ F) s -> otx_conn tx <> None -> otx_connp tx <> None ->
+  (forall j, cnto j (otx_conn tx) <= cnt j F) -> (forall j, cnto j (otx_connp tx) <= cnt j F) ->
+  ow_clean_to F (ow_tx_destroy_incomplete tx) s.
+Proof. intros. apply wp_tx_destroy with (F := F); auto. Qed.
+
+(* the transaction being parsed is kept apart from the connection c (which holds the other transactions);
+   destroying the connection parser afterwards destroys it through the connection's list *)
+Definition ow_put_tx (p : ow_connp) (c : ow_conn) (tx : ow_tx) : ow_connp :=
+  ocp_set_conn p (Some (ocn_set_txs c (ocn_txl c) (ocn_txs c ++ [Some tx]))).
+
+Lemma wf_conn_put a c tx : wf_conn (Some a) c -> wf_tx tx -> otx_conn tx = ocn_self c -> otx_connp tx = Some a -> ocn_txl c <> None ->
+  wf_conn (Some a) (ocn_set_txs c (ocn_txl c) (ocn_txs c ++ [Some tx])).
+Proof.
+  intros [W1 [W2 [W3 [W4 [W5 [W6 W7]]]]]] Wt Ec Ep Hl. split; [exact W1|]. split; [exact W2|]. split; [intros E; cbn in E; congruence|].
+  split; [|cbn; auto]. cbn. apply Forall_app. split; auto. constructor; [|constructor]. cbn. auto.
+Qed.
+
+Lemma fp_conn_put c tx j : cnt j (fp_conn (ocn_set_txs c (ocn_txl c) (ocn_txs c ++ [Some tx]))) = cnt j (fp_conn c) + cnt j (fp_tx tx).
+Proof. pose proof (fp_conn_set_txs c (ocn_txl c) (ocn_txs c ++ [Some tx]) j) as FT. cnt_norm. cbn [fp_txo] in FT. lia. Qed.
+
+Theorem ow_then_destroy_clean_process_request_header on sh p c tx F s :
+  ow_world p c -> wf_tx tx -> otx_conn tx = ocn_self c -> otx_connp tx = ocp_self p -> ocn_txl c <> None ->
+  ow_own (fp_connp p ++ fp_tx tx ++ F) s ->
+  ow_clean_to F (r <- ow_process_request_header on sh (ocp_self p) c tx ;;
+                 ow_connp_destroy_all (Some (ow_put_tx p (snd (fst r)) (snd r)))) s.
+Proof.
+  intros Wd Wt Ec Ep Hl O. destruct (world_split _ _ Wd) as [a [R [Ea [Wc [Ha [E1 [E2 Hwf]]]]]]].
+  apply wp_bind. rewrite Ea. apply wp_process_request_header with (cp := Some a) (F := R ++ F); auto.
+  - eapply own_perm; [|exact O]. intros j. specialize (E1 j). cnt_norm. lia.
+  - discriminate.
+  - intros j. specialize (Ha j). cnt_norm. lia.
+  - intros ok c' tx' s1 Wc' Wt' Et Etl Es Ec' Ep' O2. cbn [fst snd]. unfold ow_put_tx.
+    assert (Hl' : ocn_txl c' <> None) by congruence.
+    apply wp_connp_destroy_all with (F := F).
+    + apply Hwf. apply wf_conn_put; auto; congruence.
+    + eapply own_perm; [|exact O2]. intros j. rewrite (cnt_app j (fp_connp _)), E2, fp_conn_put. cnt_norm. lia.
+    + auto.
+Qed.
+
+Theorem ow_safe_process_request_header on sh p c tx F s :
+  ow_world p c -> wf_tx tx -> ow_own (fp_connp p ++ fp_tx tx ++ F) s ->
+  ow_nofault (ow_process_request_header on sh (ocp_self p) c tx) s.
+Proof.
+  intros Wd Wt O. destruct (world_split _ _ Wd) as [a [R [Ea [Wc [Ha [E1 [E2 Hwf]]]]]]].
+  eapply wp_nofault. rewrite Ea. apply wp_process_request_header with (cp := Some a) (F := R ++ F) (Q := fun _ _ => True); auto.
+  - eapply own_perm; [|exact O]. intros j. specialize (E1 j). cnt_norm. lia.
+  - discriminate.
+  - intros j. specialize (Ha j). cnt_norm. lia.
+Qed.
+
+Theorem ow_then_destroy_clean_auth_basic sh hdr p c tx F s :
+  ow_world p c -> wf_tx tx -> otx_conn tx = ocn_self c -> otx_connp tx = ocp_self p -> ocn_txl c <> None ->
+  otx_auth_user tx = None -> otx_auth_pass tx = None ->
+  ohd_self hdr <> None -> ohd_value hdr <> None -> (forall j, cnto j (ohd_self hdr) + cnto j (ohd_value hdr) <= cnt j F) ->
+  ow_own (fp_connp p ++ fp_tx tx ++ F) s ->
+  ow_clean_to F (r <- ow_auth_basic sh hdr tx ;; ow_connp_destroy_all (Some (ow_put_tx p c (snd r)))) s.
+Proof.
+  intros Wd Wt Ec Ep Hl Eu Epw Hs Hv Hle O. destruct (world_split _ _ Wd) as [a [R [Ea [Wc [Ha [E1 [E2 Hwf]]]]]]].
+  apply wp_bind. apply wp_auth_basic with (F := fp_conn c ++ R ++ F); auto.
+  - eapply own_perm; [|exact O]. intros j. specialize (E1 j). cnt_norm. lia.
+  - intros j. specialize (Hle j). cnt_norm. lia.
+  - intros rc tx' s1 Wt' Ec' Ep' O2. cbn [snd]. unfold ow_put_tx. apply wp_connp_destroy_all with (F := F).
+    + apply Hwf. apply wf_conn_put; auto; congruence.
+    + eapply own_perm; [|exact O2]. intros j. rewrite (cnt_app j (fp_connp _)), E2, fp_conn_put. cnt_norm. lia.
+    + auto.
+Qed.
+
+(* ---- multipart *)
+Theorem ow_then_destroy_clean_part_create parser F s :
+  ow_own F s -> parser <> None -> (forall j, cnto j parser <= cnt j F) ->
+  ow_clean_to F (p <- ow_part_create parser ;; ow_part_destroy p) s.
+Proof.
+  intros O Hn Hle. apply wp_bind. apply wp_part_create with (F := F); auto.
+  intros p s1 W _ _ _ O1. apply wp_part_destroy with (F := F); auto.
+Qed.
+
+Theorem ow_safe_part_parse_cd sh p F s :
+  wf_part p -> ow_own (fp_part p ++ F) s -> opt_parser p <> None -> (forall j, cnto j (opt_parser p) <= cnt j F) ->
+  ow_nofault (ow_part_parse_cd sh p) s.
+Proof. intros. eapply wp_nofault. apply wp_part_parse_cd with (F := F) (Q := fun _ _ => True); auto. Qed.
+
+Theorem ow_then_destroy_clean_part_parse_cd sh p F s :
+  wf_part p -> ow_own (fp_part p ++ F) s -> opt_parser p <> None -> (forall j, cnto j (opt_parser p) <= cnt j F) ->
+  ow_clean_to F (r <- ow_part_parse_cd sh p ;; ow_part_destroy (Some (snd r))) s.
+Proof.
+  intros W O Hn Hle. apply wp_bind. apply wp_part_parse_cd with (F := F); auto.
+  intros rc p' s1 W' _ O1. cbn [snd]. apply wp_part_destroy with (F := F); auto.
+Qed.
+
+(* ---- request buffering, log *)
+Theorem ow_then_destroy_clean_req_buffer on sh in_tx p F s :
+  wf_connp p -> ocp_conn p <> None -> ow_own (fp_connp p ++ F) s -> live_in in_tx s ->
+  ow_clean_to F (r <- ow_req_buffer on sh in_tx p ;; ow_connp_destroy_all (Some (snd r))) s.
+Proof.
+  intros W Hc O Hin. apply wp_bind. apply wp_req_buffer with (F := F); auto.
+  intros ok p' s1 W' O1. cbn [snd]. apply wp_connp_destroy_all with (F := F); auto.
+Qed.
+
+Theorem ow_then_destroy_clean_log on p c F s :
+  ow_world p c -> ow_own (fp_connp p ++ F) s ->
+  ow_clean_to F (c1 <- ow_log_msg on (ocp_self p) c ;; ow_connp_destroy_all (Some (ocp_set_conn p (Some c1)))) s.
+Proof.
+  intros Wd O. destruct (world_split _ _ Wd) as [a [R [Ea [Wc [Ha [E1 [E2 Hwf]]]]]]].
+  apply wp_bind. rewrite Ea. apply wp_log_msg with (cp := Some a) (F := R ++ F); auto.
+  - eapply own_perm; [|exact O]. intros j. specialize (E1 j). cnt_norm. lia.
+  - discriminate.
+  - intros j. specialize (Ha j). cnt_norm. lia.
+  - intros c' s1 Wc' _ _ _ O2. apply wp_connp_destroy_all with (F := F); auto.
+    eapply own_perm; [|exact O2]. intros j. specialize (E2 c' j). cnt_norm. lia.
+Qed.
+
+(* the whole chain from nothing: create, open, destroy leaves the heap it started from *)
+Theorem ow_create_open_destroy_clean hc hs s :
+  ow_own [] s ->
+  ow_wp (c <- ow_conn_create ;;
+         match c with
+         | None => ow_ret tt
+         | Some c => r <- ow_conn_open c hc hs ;; ow_conn_destroy (Some (snd r))
+         end) (fun _ s' => oos_live s' = []) s.
+Proof.
+  intros O. apply wp_bind. apply wp_conn_create with (F := []); auto.
+  - intros s1 O1. apply wp_ret. apply own_nil_empty. exact O1.
+  - intros c s1 W Et _ Ecl Esv _ _ O1.
+    eapply wp_mono.
+    + apply ow_then_destroy_clean_conn_open with (cp := None) (F := []); auto.
+      intros [t Hin]. rewrite Et in Hin. contradiction.
+    + intros u s2 O2. apply own_nil_empty. exact O2.
 Qed.
